@@ -617,20 +617,29 @@ def spawn_layer_in_subprocess(result, script_parts, options, features,
                                      for line in errlines[-10:]))
             output.error_with_banner(errmsg)
 
-        while nfail > 0:
-            nfail -= 1
-            # Doing erriter.next().strip() confuses the 2to3 fixer, so
-            # we need to do it on a separate line. Also, in python 3 this
-            # returns bytes, so we decode it.
-            next_fail = next(erriter)
-            failures.append((next_fail.strip().decode(), None))
-        while nerr > 0:
-            nerr -= 1
-            # Doing erriter.next().strip() confuses the 2to3 fixer, so
-            # we need to do it on a separate line. Also, in python 3 this
-            # returns bytes, so we decode it.
-            next_err = next(erriter)
-            errors.append((next_err.strip().decode(), None))
+        # Collect the names first: if the report turns out to be cut short
+        # (the subprocess died while writing it) none of it is used.
+        child_failures = []
+        child_errors = []
+        try:
+            while nfail > 0:
+                nfail -= 1
+                next_fail = next(erriter)
+                child_failures.append(
+                    (next_fail.strip().decode('utf-8', 'replace'), None))
+            while nerr > 0:
+                nerr -= 1
+                next_err = next(erriter)
+                child_errors.append(
+                    (next_err.strip().decode('utf-8', 'replace'), None))
+        except StopIteration:
+            result.num_ran = 0
+            errors.append(("subprocess for %s" % layer_name, None))
+            output.error_with_banner(
+                "Incomplete report from subprocess for %s!" % layer_name)
+        else:
+            failures.extend(child_failures)
+            errors.extend(child_errors)
 
     finally:
         result.done = True
